@@ -1,12 +1,12 @@
 (* C11 — Boolean mask algebra follows the documented coverage-scoped semantics.
-   Statements only; proofs in OpsProofs.v (inversion / constants, L1 -> L0) and BoolLaws.v (the
-   algebra of the dense specification d_bool_op that the implementation is compared with on every
-   run).  The block-copy implementation of the map-with-map operators (Ops.bool_map_op_inplace /
-   bool_map_op_copy) is tied to d_bool_op by the per-run correspondence; its refinement proof is
-   listed as open in DESIGN.md. *)
+   Statements only; proofs in OpsProofs.v (inversion / constants, L1 -> L0), BoolLaws.v (the algebra
+   of the dense specification d_bool_op), BoolRefine.v / AbsRefine.v (the block-copy implementation
+   of the map-with-map operators, Ops.bool_map_op_inplace / bool_map_op_copy, refines d_bool_op for
+   all well-formed operands of one resolution, and the in-place form equals the copying form).  The
+   implementation is compared with model and specification on every run. *)
 From Coq Require Import QArith.
 From HS Require Import Prelude Cov Map Spec Ops Spec2 Params AtFold MapProofs UpdateProofs HistoryProofs
-     LayoutProofs AccountProofs OpsProofs BoolLaws Exec Exec2 ExecProofs.
+     LayoutProofs AccountProofs OpsProofs BoolLaws BoolRefine AbsRefine Exec Exec2 ExecProofs.
 Open Scope Z_scope.
 
 Section C11.
@@ -35,6 +35,31 @@ Theorem C11_double_inversion :
   forall (g : V -> V) (m : smap V), wf P m -> (forall v, g (g v) = v) ->
     abs V (p_dv P) (tail_map V g (tail_map V g m)) = abs V (p_dv P) m.
 Proof. exact (tail_map_involutive P). Qed.
+
+(* a op b (copying form) and a op= b (in-place form), as implemented block by block through the
+   coverage index with growth of the left operand's coverage: both are well formed, both have the
+   dense specification d_bool_op of the operands as their abstraction — so they are equal *)
+Theorem C11_in_place_operator_refines :
+  forall (f : V -> V -> V) (a b : smap V),
+    wf P a -> wf P b -> nfine b = nfine a -> ncov V b = ncov V a ->
+    wf P (bool_map_op_inplace V (p_dv P) f a b) /\
+    abs V (p_dv P) (bool_map_op_inplace V (p_dv P) f a b) =
+      d_bool_op V (p_dv P) f (abs V (p_dv P) a) (abs V (p_dv P) b).
+Proof. exact (bool_inplace_refines P). Qed.
+
+Theorem C11_copying_operator_refines :
+  forall (f : V -> V -> V) (a b : smap V) (vfalse : V),
+    wf P a -> wf P b -> nfine b = nfine a -> ncov V b = ncov V a -> vfalse = blank a ->
+    wf P (bool_map_op_copy V vfalse f a b) /\
+    abs V (p_dv P) (bool_map_op_copy V vfalse f a b) =
+      d_bool_op V (p_dv P) f (abs V (p_dv P) a) (abs V (p_dv P) b).
+Proof. exact (bool_copy_refines P). Qed.
+
+Theorem C11_in_place_equals_copying :
+  forall (f : V -> V -> V) (a b : smap V) (vfalse : V),
+    wf P a -> wf P b -> nfine b = nfine a -> ncov V b = ncov V a -> vfalse = blank a ->
+    abs V (p_dv P) (bool_map_op_inplace V (p_dv P) f a b) = abs V (p_dv P) (bool_map_op_copy V vfalse f a b).
+Proof. exact (bool_inplace_abs_eq_copy P). Qed.
 
 End C11.
 
@@ -110,6 +135,9 @@ Print Assumptions C11_invert_and_constants_refine.
 Print Assumptions C11_invert_pointwise.
 Print Assumptions C11_invert_keeps_layout.
 Print Assumptions C11_double_inversion.
+Print Assumptions C11_in_place_operator_refines.
+Print Assumptions C11_copying_operator_refines.
+Print Assumptions C11_in_place_equals_copying.
 Print Assumptions C11_outside_coverage.
 Print Assumptions C11_inside_coverage.
 Print Assumptions C11_coverage_union.
